@@ -65,6 +65,9 @@ LockedOf(Rg) == IF Rg[1].present /\ Rg[2].present THEN Rg[1].stake + Rg[2].stake
 Total(st) == Add(Add(Add(Add(Add(Add(st.bal[1], st.bal[2], B), st.bal[3], B), st.bal[4], B), st.fee, B), st.escrow, B),
                  Scale(LockedOf(Reg(st))), B)
 
+ValSum(Rg) == (IF Rg[1].present /\ Rg[1].type = 0 THEN Rg[1].stake ELSE 0) +
+              (IF Rg[2].present /\ Rg[2].type = 0 THEN Rg[2].stake ELSE 0)
+
 (* --- the property on one observed state ----------------------------------- *)
 (* omTag: how a violation of "an account controls at most one miner" is named.  The recorded
    finding is specific: the by-account index does not see miners created earlier in the SAME
@@ -85,6 +88,10 @@ JudgeState(st, omTag) ==
   Tag(st.propTotalUniverse = TotalStake(Rg, 1), "Inv.ProposerTotalIsSum") \o
   Tag(\A i \in Ids : (st.propDetail[i] # -1) = (Rg[i].present /\ Rg[i].type = 1 /\ ~Rg[i].abort), "Inv.ProposerSetIsActive") \o
   Tag(\A i \in Ids : st.propDetail[i] # -1 => st.propDetail[i] = Rg[i].stake, "Inv.ProposerStakeAgrees") \o
+  (* the group stake the reward calculation uses (GetValidatorsStake reads the stake slots of the
+     given member ids directly) = sum over the validator records those ids have, aborted ones with
+     what they still hold included, fully refunded (removed) ones not *)
+  Tag(st.valTotalUniverse = ValSum(Rg), "Inv.ValidatorStakeIsSumOverRecords") \o
   (* an active proposer record counts for the election from its apply height on, not before *)
   Tag(\A i \in Ids : st.propAtApplyHeight[i] # -1 => (st.propAtApplyHeight[i] = 1 /\ st.propBeforeApplyHeight[i] = 0),
       "Inv.ProposerCountsFromApplyHeight")
